@@ -54,7 +54,8 @@ SendActs(S) == UNION { IF S.ch[c].cur.ns > MaxSeq THEN {} ELSE
       (IF V2 THEN With(With(Base(c, "SendV2"), "toT", TimeoutSecs(S, c)), "data",
                        { <<d>> : d \in DATA } \cup (IF "fail" \in DATA THEN { <<"ok","fail">>, <<"ok","ok">> } ELSE {})
                        \cup (IF "fail2" \in DATA THEN { <<"ok2","fail1">>, <<"ok1","ok2">>, <<"fail2","ok1">>, <<"ok1","async">>,
-                                                         <<"ok1","ok","fail2">>, <<"ok2","ok1","ok">> } ELSE {}))
+                                                         <<"ok1","ok","fail2">>, <<"ok2","ok1","ok">>,
+                                                         <<"async1","fail1">>, <<"ok1","async","fail">>, <<"ok1","oksent">>, <<"oksent">>, <<"ok","oksent","ok1">> } ELSE {}))
              ELSE {})
     : c \in SENDERS }
 
